@@ -40,6 +40,7 @@ type c02Case struct {
 	Repeats       int      `json:"repeats"`
 	NoRoots       bool     `json:"no_roots,omitempty"` // the layout lists no root CA: nobody is authorised through a certificate
 	Params        bool     `json:"params,omitempty"`   // verification with a (non-matching) parameter dictionary
+	DupPubKey     bool     `json:"dup_pubkey,omitempty"` // the step lists one authorised key id twice (still one functionary)
 }
 
 // c02Kind describes one kind of link file for step s0.
@@ -298,6 +299,9 @@ func c02World(c c02Case) (hx.World, map[string][]string, error) {
 	s0 := hx.MStep{Type: "step", Name: c02Step, ExpMat: [][]string{{"ALLOW", "*"}}, ExpProd: [][]string{{"ALLOW", "*"}},
 		PubKeys:     []string{hx.PoolKey(c02A1).KeyID, hx.PoolKey(c02A2).KeyID, hx.PoolKey(c02A3).KeyID, hx.PoolKey(c02A4).KeyID, hx.PoolKey(c02L).KeyID},
 		Constraints: []hx.MConstraint{constraint}, ExpCommand: []string{"build"}, Threshold: c.Threshold}
+	if c.DupPubKey {
+		s0.PubKeys = append([]string{hx.PoolKey(c02A1).KeyID, hx.PoolKey(c02A2).KeyID}, s0.PubKeys...)
+	}
 	lay.Steps = []hx.MStep{s0}
 	w := hx.World{Entry: "cwd", PKI: pki, Product: []hx.WFile{{Path: "out.txt", Content: "payload"}}}
 	if c.Intermediate == "caller" {
@@ -454,7 +458,10 @@ func c02Eval(c c02Case, r *hx.Rec) error {
 	if c.Params {
 		r.Label("with-parameters")
 	}
-	r.Key("%d|%v%v%v%v%s|%s|%s|%s|%v%v", c.Threshold, c.SecondStep, c.SecondFirst, c.ForeignInter, c.MultiValued, c.StepName, c.LayoutWrapper, c.Intermediate, strings.Join(sorted, ","), c.NoRoots, c.Params)
+	if c.DupPubKey {
+		r.Label("duplicate-pubkey")
+	}
+	r.Key("%d|%v%v%v%v%s|%s|%s|%s|%v%v%v", c.Threshold, c.SecondStep, c.SecondFirst, c.ForeignInter, c.MultiValued, c.StepName, c.LayoutWrapper, c.Intermediate, strings.Join(sorted, ","), c.NoRoots, c.Params, c.DupPubKey)
 
 	var first *bool
 	for rep := 0; rep < c.Repeats; rep++ {
@@ -553,6 +560,7 @@ func c02Gen(t *rapid.T) c02Case {
 		StepName:      rapid.SampledFrom([]string{"", "", "build.v2", "release-1.0.x", "Build", "x"}).Draw(t, "stepname"),
 		NoRoots:       rapid.IntRange(0, 7).Draw(t, "noroots") == 0,
 		Params:        rapid.IntRange(0, 3).Draw(t, "params") == 0,
+		DupPubKey:     rapid.IntRange(0, 3).Draw(t, "duppubkey") == 0,
 	}
 	c.Kinds = rapid.SliceOfNDistinct(rapid.SampledFrom(c02KindNames), 0, 5, rapid.ID[string]).Draw(t, "kinds")
 	return c
@@ -586,7 +594,7 @@ func c02Exhaustive(t *testing.T) {
 			}
 			c := c02Case{Threshold: th, SecondStep: n%3 == 0, LayoutWrapper: []string{"legacy", "dsse"}[n%2], Intermediate: []string{"layout", "caller"}[(n/2)%2],
 				Kinds: append([]string{}, cur...), Repeats: hx.Pick(6, 16), SecondFirst: n%5 < 2, ForeignInter: (n/3)%2 == 0, MultiValued: (n/7)%2 == 0, StepName: []string{"", "build.v2", "", "release-1.0.x"}[(n/11)%4],
-				NoRoots: (n/13)%8 == 0, Params: (n/5)%4 == 0}
+				NoRoots: (n/13)%8 == 0, Params: (n/5)%4 == 0, DupPubKey: (n/17)%3 == 0}
 			r := &hx.Rec{}
 			hx.Journal("C02", "populations", c)
 			err := c02Eval(c, r)
